@@ -20,6 +20,10 @@ pub struct Case {
     /// dt_max = frac * cap(tol) / L, frac in [0.3, 1]
     pub frac: f64,
     pub tlen: f64,
+    /// linear problems only: the initial distance from the centre is multiplied by 10^amp_exp (solutions of size up
+    /// to a few hundred; the tolerance is absolute, so the step cap is computed from tol / 10^amp_exp)
+    #[serde(default)]
+    pub amp_exp: f64,
 }
 
 pub const K_RK: f64 = 100.0;
@@ -32,10 +36,24 @@ pub fn run_case(case: &Case) -> Outcome {
         return o.discard("dimension mismatch");
     }
     let solver = case.solver;
+    let (y0, amp): (Vec<f64>, f64) = match (&case.problem, case.amp_exp > 0.0) {
+        (Problem::Lin { center, .. }, true) => {
+            // keep tol / amplitude >= 1e-12 (the bound has to stay above the rounding of a solution of that size)
+            let m = 10f64.powf(case.amp_exp).min(case.tol / 1e-12).max(1.0);
+            (case.y0.iter().zip(center).map(|(y, c)| c + m * (y - c)).collect(), m)
+        }
+        _ => (case.y0.clone(), 1.0),
+    };
+    if amp > 1.0 {
+        o.label("amplified");
+        if amp >= 30.0 {
+            o.label("large-amplitude");
+        }
+    }
     // the reference flow for the generic family is accurate to ~1e-13: tolerances >= 1e-9 only
     let tol = if cp.p.has_closed_form() { case.tol } else { case.tol.max(1e-9) };
     let l = cp.rate;
-    let dt_max = case.frac * solver.step_cap(tol) / l;
+    let dt_max = case.frac * solver.step_cap(tol / amp) / l;
     let dt_min = 1e-7 * dt_max;
     // bound the path length (steps) so that a case stays cheap
     let t_len = case.tlen.min(40_000.0 * dt_max).max(12.0 * dt_max);
@@ -46,7 +64,7 @@ pub fn run_case(case: &Case) -> Outcome {
     o.set("tol", tol);
     let probe = Rc::new(RefCell::new(Probe { budget: DERIV_BUDGET * 4, ..Default::default() }));
     let rhs = |t: f64, y: &[f64], out: &mut [f64]| cp.f(t, y, out);
-    let run = run_real(solver, false, cp.dim, &cfg.calls(), &case.y0, probe.clone(), &rhs, MAX_POINTS, 0);
+    let run = run_real(solver, false, cp.dim, &cfg.calls(), &y0, probe.clone(), &rhs, MAX_POINTS, 0);
     o.set("points", run.pts.len());
     match &run.end {
         End::Done => {}
@@ -60,7 +78,7 @@ pub fn run_case(case: &Case) -> Outcome {
         End::Panic(m) => return o.fail(format!("panicked: {m}")),
     }
     let mut prev_t = cfg.t0;
-    let mut prev_y = case.y0.clone();
+    let mut prev_y = y0.clone();
     let mut worst: f64 = 0.0;
     let mut capped = 0usize;
     for (i, (t, y)) in run.pts.iter().enumerate() {
@@ -98,8 +116,8 @@ pub fn run_case(case: &Case) -> Outcome {
 }
 
 fn strategy(_t: Tier) -> BoxedStrategy<Case> {
-    (proptest::sample::select(&ADAPTIVE[..]), problem_any(), prop_oneof![1 => Just(0.0), 3 => gen::fl(-2.0, 2.0)], gen::logu(-10.0, -3.0), gen::fl(0.3, 1.0), gen::fl(1.0, 4.0))
-        .prop_map(|(solver, (problem, y0), t0, tol, frac, tlen)| Case { solver, problem, y0, t0, tol, frac, tlen })
+    (proptest::sample::select(&ADAPTIVE[..]), problem_any(), prop_oneof![1 => Just(0.0), 3 => gen::fl(-2.0, 2.0)], gen::logu(-10.0, -3.0), gen::fl(0.3, 1.0), gen::fl(1.0, 4.0), prop_oneof![3 => Just(0.0), 1 => gen::fl(0.0, 2.0), 1 => gen::fl(2.0, 3.0)])
+        .prop_map(|(solver, (problem, y0), t0, tol, frac, tlen, amp_exp)| Case { solver, problem, y0, t0, tol, frac, tlen, amp_exp })
         .boxed()
 }
 
@@ -107,13 +125,13 @@ pub fn run(opts: &Opts) -> i32 {
     let mut spec = Spec::new("C02", strategy, run_case);
     for solver in ADAPTIVE {
         for (problem, y0) in crate::c01::sweep_problems() {
-            spec.enumerated.push(Case { solver, problem, y0, t0: 0.0, tol: 1e-6, frac: 0.7, tlen: 2.0 });
+            spec.enumerated.push(Case { solver, problem, y0, t0: 0.0, tol: 1e-6, frac: 0.7, tlen: 2.0, amp_exp: 0.0 });
         }
     }
     spec.cases = opts.tier.pick(3_000, 60_000);
     spec.essential = vec![("estimator-limited", 0.15), ("generic", 0.1), ("lin", 0.2), ("bdf6", 0.1), ("rk23", 0.1)];
     spec.max_discard_frac = 0.1;
-    spec.rule = format!("generated: six adaptive solvers x problem family P (closed-form flows; generic family with a harness-side 3-stage Gauss-Legendre reference flow accurate to 1e-13 and tolerances >= 1e-9) x tolerance 10^[-10,-3] x dt_max = U(0.3,1) cap(tol)/L with cap = 2 tol^(1/5) (RK45, Adams5, BDF6) or tol^(1/3) (RK23, Adams3, BDF2), L = max(Lipschitz constant, forcing frequencies) x dt_min = 1e-7 dt_max x length 1-4 (at most 40000 maximal steps). Oracle: for every consecutive pair of yielded points |y_(n+1) - Phi(t_n, y_n; t_(n+1))|_2 <= {K_RK} tol h + floor (RK, Adams) or {K_BDF} tol + floor (BDF), floor = 64 eps (1 + |y|_1). Non-trivial = path with >= 10 steps of which at least one is below the step cap. Distinct = distinct case JSON.");
+    spec.rule = format!("generated: six adaptive solvers x problem family P (closed-form flows; generic family with a harness-side 3-stage Gauss-Legendre reference flow accurate to 1e-13 and tolerances >= 1e-9) x tolerance 10^[-10,-3] x dt_max = U(0.3,1) cap(tol)/L with cap = 2 tol^(1/5) (RK45, Adams5, BDF6) or tol^(1/3) (RK23, Adams3, BDF2), L = max(Lipschitz constant, forcing frequencies) x dt_min = 1e-7 dt_max x length 1-4 (at most 40000 maximal steps); two fifths of the linear problems start 10^[0,3] times further from their centre (solutions of size up to several hundred; the step cap is then computed from tol / that factor, the bound stays absolute). Oracle: for every consecutive pair of yielded points |y_(n+1) - Phi(t_n, y_n; t_(n+1))|_2 <= {K_RK} tol h + floor (RK, Adams) or {K_BDF} tol + floor (BDF), floor = 64 eps (1 + |y|_1). Non-trivial = path with >= 10 steps of which at least one is below the step cap. Distinct = distinct case JSON.");
     spec.max_shrink_iters = 200;
     run_spec(spec, opts)
 }
